@@ -97,6 +97,9 @@ def verify_contract(c, registry, both=False, keep_engine=False):
                 break
         if not ok:
             res.covers_failed.append(name)
+    # a loop contract whose loop body is reached on no path of any type case proves nothing about the loop
+    if c.loops and not c.hints.get('loops_may_be_unreachable') and not any('.loop' in name and name.endswith('.body') for name in covers):
+        res.covers_failed.append('%s.loop.body (no path enters a loop that has a contract)' % c.funcname)
     res.cover_count = len(covers)
     return res
 
